@@ -536,6 +536,65 @@ def r20_7(prog, rep, rid="R20.7"):
         rep.broken_("rule=%s expected >=2 loop exits (at least one per unit), found %d" % (rid, n))
 
 
+def r20_8(prog, rep, rid="R20.8"):
+    """What every caller takes the two binary searches for: BinaryFirst() answers the index in front of the first element that is not
+    smaller than the value, BinaryLast() the index behind the last element that is not greater — over a run of equal elements the two
+    ends of the run (stability rests on that, and so does the uniqueness of the values pulled into the internal buffer).  Both are
+    walked over every sorted array of up to five elements with three distinct keys, whole and as an inner range, with the comparator
+    modelled as `<` on the keys."""
+    import bisect
+    import itertools
+    from ..absw import AbsWalk, eval_in
+    n = 0
+    for unit in ("instant.c", "event.c"):
+        fns = _template_fns(prog, unit)
+        for name, ref in (("BinaryFirst", bisect.bisect_left), ("BinaryLast", bisect.bisect_right)):
+            f = fns.get(name)
+            if f is None:
+                rep.broken_("rule=%s %s: %s not found" % (rid, unit, name))
+                continue
+            cfg = f.cfg
+            ap, vp, rp = (p_["n"] for p_ in f.params[:3])
+
+            def call_eval(c, store):
+                if (c.get("fn") or "").endswith("_lt_p") and len(c.get("a", ())) == 2:
+                    a, b = (eval_in(store, cfg.resolve(x_), f, call_eval) for x_ in c["a"])
+                    return None if a is None or b is None else int(a < b)
+                return None
+            bad = []
+            cases = 0
+            for ln in range(1, 6):
+                for arr in itertools.combinations_with_replacement((1, 2, 3), ln):
+                    for lo, hi in ((0, ln),) + (((1, ln - 1),) if ln >= 3 else ()):
+                        for v in (0, 1, 2, 3, 4):
+                            init = {"%s[%d]" % (ap, k_): x_ for k_, x_ in enumerate(arr)}
+                            init.update({vp: v, rp + ".start": lo, rp + ".end": hi})
+                            outs = []
+
+                            def effect(b, i, x, store, outs=outs):
+                                if isinstance(x, dict) and x.get("k") == "ret" and x.get("e") is not None:
+                                    outs.append(eval_in(store, cfg.resolve(x["e"]), f, call_eval))
+                                return None
+                            AbsWalk(f, {l_["n"] for l_ in f.locals}, init=init, effect=effect, call_eval=call_eval, max_states=5000).run()
+                            cases += 1
+                            want = lo + ref(list(arr[lo:hi]), v)
+                            if len(set(outs)) != 1 or outs[0] != want:
+                                bad.append((list(arr), (lo, hi), v, outs[0] if len(set(outs)) == 1 else None, want))
+            n += 1
+            key = "%s/%s/ends-of-the-run" % (unit, name)
+            if bad:
+                a_, r_, v_, g_, w_ = bad[0]
+                rep.fail(rid, key, f.loc(), "%d of %d searches do not return the %s of the run of equal elements, e.g. %s(%s, %d, [%d, %d)) gives %s instead of %d: "
+                         "an element is inserted among its equals instead of %s them (stability), and equal values get into the internal buffer"
+                         % (len(bad), cases, "start" if name == "BinaryFirst" else "end", name, a_, v_, r_[0], r_[1], g_, w_,
+                            "in front of" if name == "BinaryFirst" else "behind"), {"examples": [list(map(str, b_)) for b_ in bad[:10]]})
+            else:
+                rep.ok(rid, key, f.loc(), "%d searches over sorted arrays with runs of equal keys return the %s of the run" % (
+                    cases, "start" if name == "BinaryFirst" else "end"))
+    if n < 4:
+        rep.broken_("rule=%s expected both searches in both units, found %d" % (rid, n))
+
+
 def run(prog, rep, tier, snap):
     rep.rule("R20.1", "comparator is a strict order applied symmetrically", 5)
     rep.call(r20_1, prog, rep)
@@ -551,6 +610,8 @@ def run(prog, rep, tier, snap):
     rep.call(r20_6, prog, rep)
     rep.rule("R08.3", "sentinels wrap to zero: all-day sorts before timed (shared with C08)", 4)
     rep.call(c08.r08_3, prog, rep)
+    rep.rule("R20.8", "the binary searches return the two ends of a run of equal elements (value-fixed walks over all small sorted arrays)", 4)
+    rep.call(r20_8, prog, rep)
     rep.rule("R20.7", "the rotation merge runs until one of its ranges is empty", 2)
     rep.call(r20_7, prog, rep)
     from . import c03
